@@ -52,7 +52,7 @@ def run(tier):
     ck.coverage["programs_checked"] = checked
     ck.coverage["programs_discarded_by_model"] = discarded
     return ck.finish("operation histories of 6-40 operations over 1-3 maps with equal-but-differently-built keys, NaN "
-                     "and unhashable keys, against an association-list model; non-trivial = distinct history with at "
+                     "and unhashable keys, plus literals of 0-256 entries and maps grown / shrunk across growth points, against an association-list model; non-trivial = distinct history with at "
                      "least 3 keyed operations")
 
 
